@@ -262,7 +262,7 @@ Definition hv_fv (x : hv) : fv := match x with HStr s => FS s | HList l => FL l 
 Inductive dcond :=
 | DHeader (neg : bool) (m : mtag) (h v : hv)
 | DExists (neg : bool) (names : list bytes)
-| DSize (over : bool) (n : bytes)
+| DSize (neg : bool) (over : bool) (n : bytes)
 | DEnvelope (neg : bool) (m : mtag) (hs ks : list bytes)
 | DAddress (neg : bool) (m : mtag) (hs ks : hv)
 | DBody (neg : bool) (raw : bool) (m : mtag) (vals : list bytes)
@@ -275,7 +275,7 @@ Definition ctuple (d : dcond) : tuple :=
   match d with
   | DHeader neg m h v => [hv_fv h; FS (mt_b neg m); hv_fv v]
   | DExists neg names => FS (if neg then bs "notexists" else bs "exists") :: map FS names
-  | DSize over n => [FS (bs "size"); FS (if over then bs ":over" else bs ":under"); FI n]
+  | DSize neg over n => [FS (if neg then bs "notsize" else bs "size"); FS (if over then bs ":over" else bs ":under"); FI n]
   | DEnvelope neg m hs ks => [FS (bs "envelope"); FS (mt_b neg m); FL hs; FL ks]
   | DAddress neg m hs ks => [FS (bs "address"); FS (mt_b neg m); hv_fv hs; hv_fv ks]
   | DBody neg raw m vals => FS (bs "body") :: FS (if raw then bs ":raw" else bs ":text") :: FS (mt_b neg m) :: map FS vals
@@ -345,14 +345,14 @@ Definition tag_arg (s : bytes) : argument := (TyTag, VStr s).
 (* negated: wrapped in `not` *)
 Definition cneg (d : dcond) : bool :=
   match d with
-  | DHeader neg _ _ _ | DExists neg _ | DEnvelope neg _ _ _ | DAddress neg _ _ _ | DBody neg _ _ _
+  | DHeader neg _ _ _ | DExists neg _ | DSize neg _ _ | DEnvelope neg _ _ _ | DAddress neg _ _ _ | DBody neg _ _ _
   | DCurrentdate neg _ _ _ _ => neg
   | _ => false
   end.
 
 Definition cname (d : dcond) : bytes :=
   match d with
-  | DHeader _ _ _ _ => bs "header" | DExists _ _ => bs "exists" | DSize _ _ => bs "size"
+  | DHeader _ _ _ _ => bs "header" | DExists _ _ => bs "exists" | DSize _ _ _ => bs "size"
   | DEnvelope _ _ _ _ => bs "envelope" | DAddress _ _ _ _ => bs "address" | DBody _ _ _ _ => bs "body"
   | DCurrentdate _ _ _ _ _ | DCurrentdateValue _ _ _ _ => bs "currentdate"
   | DTrue => bs "true" | DFalse => bs "false"
@@ -363,7 +363,7 @@ Definition cargs (d : dcond) : list argument :=
   match d with
   | DHeader _ m h v => [tag_arg (mtag_b m); hv_arg h; hv_arg v]
   | DExists _ names => [ql_arg names]
-  | DSize over n => [tag_arg (if over then bs ":over" else bs ":under"); (TyNumber, VStr n)]
+  | DSize _ over n => [tag_arg (if over then bs ":over" else bs ":under"); (TyNumber, VStr n)]
   | DEnvelope _ m hs ks => [tag_arg (mtag_b m); ql_arg hs; ql_arg ks]
   | DAddress _ m hs ks =>
       [tag_arg (mtag_b m);
@@ -431,7 +431,7 @@ Definition cond_ok (d : dcond) : Prop :=
   match d with
   | DHeader _ _ h v => hdr_ok h /\ hv_ok h /\ hv_ok v
   | DExists _ names => lok names
-  | DSize _ n => num_ok n
+  | DSize _ _ n => num_ok n
   | DEnvelope _ _ hs ks => lok hs /\ lok ks
   | DAddress _ _ hs ks => hva_ok hs /\ hva_ok ks
   | DBody _ _ _ vals => lok vals
@@ -511,12 +511,12 @@ Lemma build_cond : forall d loaded reqs, cond_ok d ->
             canon_test fsep (ctest d) (done f).
 Proof.
   intros d loaded reqs Hok.
-  destruct d as [neg m h v|neg names|over n|neg m hs ks|neg m hs ks|neg raw m vals|neg zone m part keys|zone r part keys| |];
+  destruct d as [neg m h v|neg names|neg over n|neg m hs ks|neg m hs ks|neg raw m vals|neg zone m part keys|zone r part keys| |];
     cbn [cond_ok] in Hok.
   - destruct h as [s|l], v as [s2|l2]; cbn [hdr_ok hv_ok] in Hok; facts; destruct neg, m;
       (eexists; split; [run_build|canon_simple]).
   - facts; destruct neg; (eexists; split; [run_build|canon_simple]).
-  - destruct over; (eexists; split; [run_build|canon_simple]).
+  - destruct neg, over; (eexists; split; [run_build|canon_simple]).
   - facts; destruct neg, m; (eexists; split; [run_build|canon_simple]).
   - destruct hs as [s|l], ks as [s2|l2]; cbn [hva_ok] in Hok; facts; destruct neg, m;
       (eexists; split; [run_build|canon_simple]).
@@ -554,7 +554,7 @@ Lemma cond_wf : forall d L, cond_ok d -> (forall e, In e (cexts d) -> mem e L = 
   exists n, wf_test gen_tables L (ctest d) n.
 Proof.
   intros d L Hok HL. pose proof (sub_of_in _ _ HL) as Hs. clear HL.
-  destruct d as [neg m h v|neg names|over n|neg m hs ks|neg m hs ks|neg raw m vals|neg zone m part keys|zone r part keys| |];
+  destruct d as [neg m h v|neg names|neg over n|neg m hs ks|neg m hs ks|neg raw m vals|neg zone m part keys|zone r part keys| |];
     cbn [cond_ok cexts] in *.
   - destruct h as [s|l], v as [s2|l2]; cbn [hdr_ok hv_ok] in Hok; facts; destruct m; wf_simple_tac (@nil bytes) Hs.
   - facts; wf_simple_tac (@nil bytes) Hs.
